@@ -329,7 +329,7 @@ func (s *Server) doUpdateOrReplace(ctx context.Context, prefix *gnmi.Path, u *gn
 	jsonVal := u.GetVal().GetJsonVal()
 	if jsonVal != nil {
 		log.Debugf("Processing Json Value in set from base %s: %s", path, string(jsonVal))
-		pathValues, err := target.plugin.GetPathValues(ctx, prefixPath, jsonVal)
+		pathValues, err := target.plugin.GetPathValues(ctx, path, jsonVal)
 		if err != nil {
 			return err
 		}
